@@ -97,6 +97,8 @@ func runC18(c *Ctx) {
 		}, 4)
 	})
 
+	c.rule("C18.R5", "the subscription registry is not shared between goroutines: "+registryOwnerDoc, func() { c.registryOwner() })
+
 	c.rule("C18.R2", "goroutine-local bookkeeping stays local: closures that run on another goroutine (go statements, time.AfterFunc callbacks) created inside the single-owner loops workDispatcher and broadcastHandler capture only channels, scalars copied by value and the owning manager, never the loop's maps, work queue or per-batch records (which the loop mutates without synchronisation)", func() {
 		afterFunc := c.funcObj("time", "AfterFunc")
 		for _, name := range []string{fnDispatch, fnBHandler} {
